@@ -50,6 +50,9 @@ func TestC17Concurrent(t *testing.T) {
 				defer mu.Unlock()
 				cnt++
 				if cnt%failEvery == 0 {
+					if cnt%(2*failEvery) == 0 {
+						return sim.FaultRejectTyped
+					}
 					return sim.FaultReject
 				}
 				return sim.FaultNone
